@@ -16,7 +16,7 @@ Notation step := (step A H has_route on_recv on_ack).
 Definition net := list chain.
 
 Inductive nop :=
-| NChain (i : nat) (now : N) (o : op)
+| NChain (i : nat) (now : N) (o : op A)
 | NCreate (i j : nat) (now h t period : N)
 | NUpd (i j : nat) (now h t : N).
 
@@ -31,7 +31,7 @@ Definition nop_chain (o : nop) : nat :=
   match o with NChain i _ _ => i | NCreate i _ _ _ _ _ => i | NUpd i _ _ _ _ => i end.
 
 (** the single-chain operation a network operation amounts to *)
-Definition resolve (n : net) (o : nop) : option (nat * N * op) :=
+Definition resolve (n : net) (o : nop) : option (nat * N * op A) :=
   match o with
   | NChain i now o' => Some (i, now, o')
   | NCreate i j now h t period =>
@@ -62,3 +62,8 @@ Definition nstep (n : net) (o : nop) : net * option (list event) :=
 Definition nrun (n : net) (ops : list nop) : net := fold_left (fun n o => fst (nstep n o)) ops n.
 
 End Net.
+
+Arguments NChain {A} i now o.
+Arguments NCreate {A} i j now h t period.
+Arguments NUpd {A} i j now h t.
+Arguments nop_chain {A} o.
